@@ -9,37 +9,47 @@ EnvTrailers == TrailerNames \ {"nts_resp"}
 ShapesAll == {sh \in (Lens \cup {NatLen(c) : c \in EnvTrailers}) \X EnvTrailers :
                 /\ ShapeOK(sh[1], sh[2])
                 /\ (sh[1] \in Lens \/ sh[1] = NatLen(sh[2]))}
-ViasAll   == {<<"ip", "empty">>} \cup {<<"scion", k>> : k \in PathKinds}
+\* <<transport, path kind, host address types>>
+ViasAll   == {<<"ip", "empty", "44">>} \cup {<<"scion", k, f>> : k \in PathKinds, f \in Fams}
 
 \* the valid first bytes and their near misses (one field off), the reply byte
 B0Key == {8, 19, 27, 35, 200, 211, 219, 227,
           36, 228, 11, 16, 3, 43, 59, 99, 163, 32, 33, 34, 37, 38, 39, 0, 255, 24, 75}
 ShapesPair == {<<47, "none">>, <<48, "none">>, <<252, "nts_ok">>, <<252, "nts_badmac">>}
-ViasPair   == {<<"ip", "empty">>, <<"scion", "empty">>, <<"scion", "s2">>}
+ViasPair   == {<<"ip", "empty", "44">>, <<"scion", "empty", "44">>, <<"scion", "s2", "64">>}
 ShapesDeep == {<<48, "none">>, <<252, "nts_ok">>, <<49, "short">>}
-ViasDeep   == {<<"ip", "empty">>, <<"scion", "s1">>}
+ViasDeep   == {<<"ip", "empty", "44">>, <<"scion", "s1", "46">>}
 B0Deep     == {8, 35, 227, 36, 228, 11, 32, 163}
-ViasGenPair == {<<"ip", "empty">>, <<"scion", "empty">>}
+ViasGenPair == {<<"ip", "empty", "44">>, <<"scion", "empty", "44">>}
 ShapesGenPair == {<<47, "none">>, <<48, "none">>, <<252, "nts_ok">>}
+\* histories of three datagrams on one listener socket
+B0Hist     == {35, 36}
+ShapesHist == {<<1, "none">>, <<48, "none">>, <<252, "nts_ok">>, <<76, "garbage">>}
+ViasHist   == {<<"ip", "empty", "44">>, <<"scion", "empty", "44">>}
 
 ASSUME Reflection
 ASSUME HeaderTestExact
-ASSUME \A c \in EnvTrailers : NatLen(c) <= 1024
-ASSUME Cardinality(ShapesAll) = 42
+ASSUME Cardinality(ShapesAll) = 54
 
-\* quick-tier generator: the full first-byte x shape product over IP and over
-\* SCION with the empty path; multi-segment paths with the key first bytes
-GenQuick == draft.stage \in {"via", "addr"} => (draft.pk = "empty" \/ draft.b0 \in B0Key)
+\* quick tier: the full first-byte x shape product over IP and over SCION with
+\* the empty path and IPv4 hosts; multi-segment paths with the key first bytes;
+\* other host address types with the key first bytes, two path kinds, lengths 48 / 252
+Narrow(x) ==
+  /\ (x.pk = "empty" \/ x.b0 \in B0Key)
+  /\ (x.fam = "44" \/ (x.b0 \in B0Key /\ x.pk \in {"empty", "s2"} /\ x.len \in {48, 252}))
+\* thorough tier: everything with IPv4 hosts; other address types with the key first bytes
+Wide(x) == x.fam = "44" \/ x.b0 \in B0Key
+GenQuick == draft.stage \in {"via", "addr"} => Narrow(draft)
+GenDeep  == draft.stage \in {"via", "addr"} => Wide(draft)
 \* pair generator: only forged sources (the others are the ordinary cases)
-GenPairQuick == (draft.stage = "addr" => draft.from # Client) /\ (draft.stage # "idle" => draft.b0 \in B0Key)
-GenPairDeep  == draft.stage = "addr" => draft.from # Client
+GenPairQuick == draft.stage # "idle" => draft.b0 \in B0Key
 \* nothing needs to be handled while generating
 GenStop == draft.stage # "addr" /\ ninj = 0
 
 Case(x) ==
   LET d == DraftDgram(x)
-  IN [tp |-> x.tp, b0 |-> x.b0, len |-> x.len, tr |-> x.tr, pk |-> x.pk, from |-> x.from, to |-> x.to,
-      t |-> Trailer(x.tr), path |-> PathOf(x.pk),
+  IN [tp |-> x.tp, b0 |-> x.b0, len |-> x.len, tr |-> x.tr, pk |-> x.pk, fam |-> x.fam, from |-> x.from, to |-> x.to,
+      t |-> Trailer(x.tr), path |-> PathOf(x.pk), sc |-> d.sc,
       exp |-> Len(Replies(x.to, d)), drop |-> DropStage(x.to, d)]
 Emit == draft.stage = "addr" => PrintT(<<"CASE", ToJson(Case(draft))>>)
 EmitPair == (draft.stage = "addr" /\ draft.from # Client) => PrintT(<<"CASE", ToJson(Case(draft))>>)
